@@ -486,25 +486,24 @@ def execute(case, ctx):
             k = op["kind"]
             what = "constraint:%s%s" % (k, op["rel"] if k == "linear"
                                         else "")
-            if k == "linear" and isinstance(F, CNF):
-                r = call(F.add_linear, arg, op["rel"], op["value"],
-                         check=op["check"])
-            elif k == "linear":
-                terms = [(1, l) for l in arg]
-                rel = op["rel"] if op["rel"] != "!=" else "=="
-                r = call(F.add_constraint, terms + [rel, op["value"]],
-                         check=op["check"])
-            elif k.startswith("cardinality"):
-                r = call(getattr(F, k), arg, op["value"], check=op["check"])
-            elif k == "parity":
-                r = call(F.add_parity, arg, op["value"] % 2,
-                         check=op["check"])
-            elif k in ("add_loose_majority", "add_strict_minority"):
-                r = call(getattr(F, k), arg, check=op["check"])
-            elif k == "add_clause":
-                r = call(F.add_clause, arg, check=op["check"])
-            else:
-                r = call(F.add_clauses_from, [arg, arg], check=op["check"])
+            twin = None
+            if op["as_tuple"]:
+                tw = call(copy.deepcopy, F)
+                if tw[0] == "ok":
+                    twin = (tw[1], None)
+            r = call(_constraint_call, F, k, op, arg)
+            if op["as_tuple"] and twin is not None:
+                # the container of the literals must not matter: the same
+                # call with a list on a copy of the formula
+                Fc, before_c = twin
+                rl = call(_constraint_call, Fc, k, op, list(lits))
+                if (r[0] == "ok") != (rl[0] == "ok") or (
+                        r[0] == "ok" and snap_formula(F)[:3] !=
+                        snap_formula(Fc)[:3]):
+                    raise Violation(
+                        "C19/container-of-the-literals-matters/%s" % k,
+                        "step %d %r: with a tuple %s, with a list %s" %
+                        (si, op, _short(r), _short(rl)))
             if r[0] == "exc":
                 if isinstance(r[1], (ValueError, TypeError)):
                     ctx.note("constraint builder refused its arguments")
@@ -603,6 +602,25 @@ def execute(case, ctx):
         pool.check(target, bad, what)
     ctx.shape = case
     ctx.nontrivial = mutated_results >= 1 or chained >= 1
+
+
+def _constraint_call(F, k, op, arg):
+    if k == "linear" and isinstance(F, CNF):
+        return F.add_linear(arg, op["rel"], op["value"], check=op["check"])
+    if k == "linear":
+        terms = [(1, l) for l in arg]
+        rel = op["rel"] if op["rel"] != "!=" else "=="
+        return F.add_constraint(terms + [rel, op["value"]],
+                                check=op["check"])
+    if k.startswith("cardinality"):
+        return getattr(F, k)(arg, op["value"], check=op["check"])
+    if k == "parity":
+        return F.add_parity(arg, op["value"] % 2, check=op["check"])
+    if k in ("add_loose_majority", "add_strict_minority"):
+        return getattr(F, k)(arg, check=op["check"])
+    if k == "add_clause":
+        return F.add_clause(arg, check=op["check"])
+    return F.add_clauses_from([arg, arg], check=op["check"])
 
 
 def _call_family(fam, G, cls, op, pool, gidx, charges):
